@@ -11,13 +11,14 @@ git -C /repo worktree add --detach $WT HEAD >/dev/null 2>&1 || { echo "RESULT $S
 cd $WT
 # without the patch
 DEMOENV=""; grep -q "target/" "$SRC/demo.sh" && DEMOENV="env -u CARGO_TARGET_DIR"
-$DEMOENV sh "$SRC/demo.sh" $WT > /tmp/confirm-demo-clean.log 2>&1; RC_CLEAN=$?
+SH=sh; head -1 "$SRC/demo.sh" | grep -q bash && SH=bash
+$DEMOENV $SH "$SRC/demo.sh" $WT > /tmp/confirm-demo-clean.log 2>&1; RC_CLEAN=$?
 git -C $WT checkout -- . 2>/dev/null
 git -C $WT apply "$SRC/patch.diff" || { echo "RESULT $SRC patch-does-not-apply"; git -C /repo worktree remove --force $WT; exit 2; }
 cargo nextest run --workspace --no-fail-fast --test-threads 8 --offline > /tmp/confirm-suite.log 2>&1
 SUITE=$(grep -E "tests run:" /tmp/confirm-suite.log | tail -1)
 # generated files rewritten by the tests crate build are not part of the patch
-$DEMOENV sh "$SRC/demo.sh" $WT > /tmp/confirm-demo-patched.log 2>&1; RC_PATCH=$?
+$DEMOENV $SH "$SRC/demo.sh" $WT > /tmp/confirm-demo-patched.log 2>&1; RC_PATCH=$?
 find "$SRC" -maxdepth 3 -type d -name target -exec rm -rf {} + 2>/dev/null
 echo "RESULT $SRC clean_rc=$RC_CLEAN patched_rc=$RC_PATCH suite: $SUITE"
 cd /
